@@ -13,7 +13,10 @@ Systematic == {"apply-size@2", "apply-size@1of2", "apply-arity-fewer", "apply-re
                "apply-variadic-size", "method-apply-arity", "method-apply-no-receiver", "method-apply-size", "method-ret-few",
                "method-ret-size", "when-few-variadic", "when-arg-size", "when-arg-size@2", "returns-size@2",
                "uemethod-unknown", "uefunc-ret-few", "uefunc-ret-size", "iface-ret-size", "iface-ret-few", "iface-apply-size", "origin-unrelocatable", "target-shorter-than-the-jump",
-               "ret-size-struct", "ret-size-ptr", "when-arg-size-struct"}
+               "ret-size-struct", "ret-size-ptr", "when-arg-size-struct",
+               "empty-method-name", "empty-method-name-apply", "empty-uemethod-name", "empty-uefunc-name", "iface-empty-method-name",
+               "iface-return-before-as", "iface-returns-before-as", "iface-when-before-as", "method-when-few", "nil-func-target",
+               "var-apply-non-func", "var-apply-two-results"}
 TypedCause == {"when-few", "ret-few", "iface-not-interface", "iface-first-param", "iface-arity"}
 Known == {"non-function", "when-few", "ret-few", "ret-size", "unknown-method", "unknown-symbol", "unknown-symbol-as",
           "iface-non-pointer", "iface-not-interface", "iface-first-param", "iface-arity", "iface-unknown-method",
